@@ -1,13 +1,29 @@
 package q
 
+import "fmt"
+
 type VariableExpr struct {
 	Name string
 }
+
+// maxVariableDepth is the deepest that variables may refer to other variables.
+// There is no legitimate query that needs anywhere near this, it exists to
+// catch variables that (directly or indirectly) refer to themselves.
+const maxVariableDepth = 100
 
 func (e *VariableExpr) Evaluate(engine *Engine, input interface{}, args []*Statement) (interface{}, error) {
 	v, err := engine.StatementByVariableName(e.Name)
 	if err != nil {
 		return nil, err
+	}
+
+	engine.variableDepth++
+	defer func() {
+		engine.variableDepth--
+	}()
+
+	if engine.variableDepth > maxVariableDepth {
+		return nil, fmt.Errorf("variable %s refers to itself", e.Name)
 	}
 
 	return v.Evaluate(engine, input)
